@@ -344,6 +344,8 @@ RulesTokenExchange(a, o) ==
     \* C08: "token exchange accepts a subject or actor token only for a token the provider actually issued that is neither expired, revoked ..."
     <<"C08.exchange.subject", ok => LiveKind(a.subj)>>,
     <<"C08.exchange.actor",   (ok /\ hasActor) => LiveKind(a.actor)>>,
+    \* "succeeds only for an authenticated client": with the credentials of THIS request - whatever the same client proved before
+    <<"C15.client.auth",  ok => (a.caller \in Clients /\ IsConfidential(a.caller) /\ AuthOK(a.caller, a.cred))>>,
     <<"C15.subject.type", ok => TypeFits(a.subj)>>,
     <<"C15.subject.live", (ok /\ TypeFits(a.subj)) => SubjOK(a.subj)>>,
     <<"C15.actor.type",   (ok /\ hasActor) => TypeFits(a.actor)>>,
